@@ -80,7 +80,7 @@ protected:
         parallel *_this = reinterpret_cast<parallel *>(user_ptr);
         auto h = std::coroutine_handle<>::from_address(_this->_handle_addr);
         std::thread t([h]{
-            h.resume();
+            coro_queue::resume(h);
         });
         t.detach();
         return {};
